@@ -7,7 +7,9 @@ ask Python (ast.literal_eval) what the text means, so the generator cannot be wr
 from hypothesis import strategies as st
 
 PLAIN = 'abXY01 _-+*/=:;,.#@%$&()[]{}<>!?~^|`'
-UNI = 'é漢 😀'
+# (non-ASCII text, including characters that are not in a Unicode normal form -- ANGSTROM SIGN,
+# OHM SIGN, a combining acute accent, conjoining Hangul jamo -- which a reader must not normalise)
+UNI = 'é漢 😀\u212b\u2126\u0301\u1100\u1161'
 
 ESC_STR = ['\\n', '\\t', '\\\\', "\\'", '\\"', '\\x41', '\\u00e9', '\\N{BULLET}', '\\0',
            '\\101', '\\U0001F600', '\\\n', '\\a', '\\r']
